@@ -1345,26 +1345,34 @@ structure Same (h h' : HMap K V) : Prop where
   nev : h'.nevacuate = h.nevacuate
   hash0 : h'.hash0 = h.hash0
   count : h'.count = h.count
+  gen : h'.gen = h.gen
 
 omit [Inhabited K] [Inhabited V] in
-theorem Same.refl (h : HMap K V) : Same h h := ⟨rfl, rfl, rfl, rfl, rfl, rfl, rfl⟩
+theorem Same.refl (h : HMap K V) : Same h h := ⟨rfl, rfl, rfl, rfl, rfl, rfl, rfl, rfl⟩
 
 omit [Inhabited K] [Inhabited V] in
 theorem Same.trans {a b c : HMap K V} (h1 : Same a b) (h2 : Same b c) : Same a c :=
   ⟨h2.buckets.trans h1.buckets, h2.old.trans h1.old, h2.B.trans h1.B, h2.ssg.trans h1.ssg, h2.nev.trans h1.nev,
-   h2.hash0.trans h1.hash0, h2.count.trans h1.count⟩
+   h2.hash0.trans h1.hash0, h2.count.trans h1.count, h2.gen.trans h1.gen⟩
 
 omit [Inhabited K] [Inhabited V] in
 theorem same_fastrand (h : HMap K V) : Same h h.fastrand.2 := by
-  unfold HMap.fastrand; exact ⟨rfl, rfl, rfl, rfl, rfl, rfl, rfl⟩
+  unfold HMap.fastrand; exact ⟨rfl, rfl, rfl, rfl, rfl, rfl, rfl, rfl⟩
 
 omit [Inhabited K] [Inhabited V] in
 theorem same_incr (h : HMap K V) : Same h h.incrnoverflow := by
   unfold HMap.incrnoverflow HMap.fastrand
   split
-  · exact ⟨rfl, rfl, rfl, rfl, rfl, rfl, rfl⟩
+  · exact ⟨rfl, rfl, rfl, rfl, rfl, rfl, rfl, rfl⟩
   · simp only
-    split <;> exact ⟨rfl, rfl, rfl, rfl, rfl, rfl, rfl⟩
+    split <;> exact ⟨rfl, rfl, rfl, rfl, rfl, rfl, rfl, rfl⟩
+
+omit [Inhabited K] [Inhabited V] in
+theorem same_fastrands : ∀ (n : Nat) (h : HMap K V), Same h (h.fastrands n).2 := by
+  intro n
+  induction n with
+  | zero => intro h; exact Same.refl h
+  | succ n ih => intro h; exact (same_fastrand h).trans (ih _)
 
 omit [Inhabited K] [Inhabited V] in
 theorem hashKey_ok {o : Ops K} {s : UInt32} {k : K} (h : HMap K V) (hu : o.unhashable k = false) :
@@ -1375,7 +1383,7 @@ theorem hashKey_ok {o : Ops K} {s : UInt32} {k : K} (h : HMap K V) (hu : o.unhas
   | true => exact ⟨_, _, rfl, Same.refl h, fun _ => ⟨rfl, rfl⟩⟩
   | false =>
     simp only [Bool.false_eq_true, if_false]
-    exact ⟨_, _, rfl, same_fastrand h, fun e => by cases e⟩
+    exact ⟨_, _, rfl, same_fastrands _ h, fun e => by cases e⟩
 
 
 def freshCell (K V : Type) [Inhabited K] [Inhabited V] : Cell K V := { top := emptyRest, key := default, val := default }
@@ -3801,7 +3809,7 @@ theorem iterAll_spec {o : Ops K} {h : HMap K V} (hw : WF o h) (hold : h.old = no
     obtain ⟨h2, hh2⟩ : ∃ h2 : HMap K V, h2 = { h1 with iterFlag := true, oldIterFlag := true } := ⟨_, rfl⟩
     have hs2 : Same h h2 := by
       rw [hh2]
-      exact ⟨hs1.buckets, hs1.old, hs1.B, hs1.ssg, hs1.nev, hs1.hash0, hs1.count⟩
+      exact ⟨hs1.buckets, hs1.old, hs1.B, hs1.ssg, hs1.nev, hs1.hash0, hs1.count, hs1.gen⟩
     have hw2 := wf_same hw hs2
     have hold2 : h2.old = none := hs2.old.trans hold
     have habs2 : abs h2 = abs h := abs_same hs2
@@ -3872,12 +3880,7 @@ theorem mapdelete_stable {o : Ops K} (ho : HashOK o) {h h' : HMap K V} (hw : WF 
         simp only [hk, bind, Except.bind, pure, Except.pure] at e
         injection e with e
         subst e
-        refine same_ok h1 hs ?_
-        unfold hashKey at hk
-        simp only [hu, Bool.false_eq_true, if_false] at hk
-        split at hk
-        · injection hk with hk; injection hk with _ hk; rw [← hk]
-        · injection hk with hk; injection hk with _ hk; rw [← hk]; rfl
+        exact same_ok h1 hs hs.gen
     · simp only [pure, Except.pure] at e
       injection e with e
       subst e
@@ -3891,12 +3894,7 @@ theorem mapdelete_stable {o : Ops K} (ho : HashOK o) {h h' : HMap K V} (hw : WF 
       simp only [hk, bind, Except.bind] at e
       have hw1 := wf_same hw hs
       have hold1 : h1.old = none := hs.old.trans hold
-      have hg1 : h1.gen = h.gen := by
-        unfold hashKey at hk
-        simp only [hu, Bool.false_eq_true, if_false] at hk
-        split at hk
-        · injection hk with hk; injection hk with _ hk; rw [← hk]
-        · injection hk with hk; injection hk with _ hk; rw [← hk]; rfl
+      have hg1 : h1.gen = h.gen := hs.gen
       have hgrow : h1.growing = false := by simp [HMap.growing, hold1]
       unfold deletePass at e
       simp only [hgrow, Bool.false_eq_true, if_false, bind, Except.bind, pure, Except.pure] at e
@@ -3992,7 +3990,7 @@ theorem mapiterinit_stable {o : Ops K} {h h' : HMap K V} {it : Iter K V} (hw : W
   obtain ⟨h2, hh2⟩ : ∃ h2 : HMap K V, h2 = { h1 with iterFlag := true, oldIterFlag := true } := ⟨_, rfl⟩
   have hs2 : Same h h2 := by
     rw [hh2]
-    exact ⟨hs1.buckets, hs1.old, hs1.B, hs1.ssg, hs1.nev, hs1.hash0, hs1.count⟩
+    exact ⟨hs1.buckets, hs1.old, hs1.B, hs1.ssg, hs1.nev, hs1.hash0, hs1.count, hs1.gen⟩
   have hw2 := wf_same hw hs2
   have hold2 : h2.old = none := hs2.old.trans hold
   rw [← hh2] at e
